@@ -198,7 +198,14 @@ def r123(ctx, rep):
     fn = ctx.project.need_fn('petl.util.base:asindices')
     specp = fn.posparams[1] if len(fn.posparams) > 1 else 'spec'
     hdrp = fn.posparams[0]
-    loops = [l for l in own_nodes(fn.node) if isinstance(l, ast.For) and norm(l.iter) == specp and isinstance(l.target, ast.Name)]
+    # the loop over the selectors: over `spec` itself or over a local derived from it (`selection = spec if ... else (spec,)`)
+    derived = {specp}
+    for x in own_nodes(fn.node):
+        if isinstance(x, ast.Assign) and len(x.targets) == 1 and isinstance(x.targets[0], ast.Name) and \
+                any(isinstance(y, ast.Name) and y.id == specp for y in ast.walk(x.value)):
+            derived.add(x.targets[0].id)
+    loops = [l for l in own_nodes(fn.node) if isinstance(l, ast.For) and isinstance(l.iter, ast.Name) and l.iter.id in derived
+             and isinstance(l.target, ast.Name)]
     if len(loops) != 1:
         raise AnalysisError('anchor vanished: the loop over the field selectors in asindices')
     lp = loops[0]
